@@ -232,6 +232,11 @@ func (am *AccountingManager) Stop() error {
 		drained = am.drainAllSessions()
 	}
 
+	// Stop the workers first: a record that the retry worker delivers after
+	// the pending set was written out would be sent again on the next startup.
+	am.cancel()
+	am.wg.Wait()
+
 	// Persist pending records before shutdown
 	if err := am.persistPendingRecords(); err != nil {
 		am.logger.Warn("Failed to persist pending records", zap.Error(err))
@@ -243,10 +248,6 @@ func (am *AccountingManager) Stop() error {
 			am.removePersistedSession(sessionID)
 		}
 	}
-
-	// Cancel context and wait for workers
-	am.cancel()
-	am.wg.Wait()
 
 	am.logger.Info("Accounting manager stopped")
 	return nil
@@ -607,6 +608,12 @@ func (am *AccountingManager) processPendingRecord(record *PendingAcctRecord) {
 		case AcctStatusInterimUpdate:
 			atomic.AddUint64(&am.interimTotal, 1)
 		}
+		return
+	}
+
+	if am.ctx.Err() != nil {
+		// Shutting down: the attempt was cut short by our own cancellation, which
+		// says nothing about the server. The record stays pending and is persisted.
 		return
 	}
 
